@@ -100,6 +100,25 @@ pub fn rand_state(r: &mut Rng) -> St {
     s
 }
 
+/// Relations between registers that random values practically never produce: equal pairs, pairs one
+/// apart, A equal to another register or to the byte at (HL), small counters.
+pub fn relate_regs(r: &mut Rng, s: &mut St) {
+    match r.below(12) {
+        0 => { let v = s.pair(H); s.set_pair(D, v) }
+        1 => { let v = s.pair(H); s.set_pair(B, v) }
+        2 => { let v = s.pair(D); s.set_pair(B, v) }
+        3 => { let v = s.pair(H); s.set_pair(IXH, v); s.set_pair(IYH, v) }
+        4 => { let v = s.pair(H); s.sp = v }
+        5 => { let v = s.pair(H).wrapping_add(1); s.set_pair(D, v) }
+        6 => { let v = s.pair(H).wrapping_sub(1); s.set_pair(D, v) }
+        7 => { let a = s.regs[A]; let k = [B, C, D, E, H, L][r.below(6) as usize]; s.regs[k] = a }
+        8 => { let hl = s.pair(H); let a = s.regs[A]; s.poke(hl, &[a]) }
+        9 => { s.set_pair(B, [0u16, 1, 2, 0x100, 0xFF][r.below(5) as usize]) }
+        10 => { let v = s.sp; s.set_pair(IXH, v) }
+        _ => { let v = s.pair(IXH); s.set_pair(IYH, v) }
+    }
+}
+
 /// Put `bytes` at PC.
 pub fn with_code(mut s: St, bytes: &[u8]) -> St {
     let pc = s.pc;
@@ -110,6 +129,9 @@ pub fn with_code(mut s: St, bytes: &[u8]) -> St {
 /// A state about to execute row `op` of `page`, operands boundary-biased.
 pub fn state_for(r: &mut Rng, page: Page, op: u8) -> St {
     let mut s = rand_state(r);
+    if r.below(5) == 0 {
+        relate_regs(r, &mut s);
+    }
     let code = encode(page, op, v8(r), v8(r), v8(r));
     if is_block_repeat(page, op) {
         // keep the loop short most of the time
